@@ -122,8 +122,9 @@ structure State where
   stuck    : Bool          -- next_async threw after storing _caller
   ub       : Bool          -- a null `_caller` / `_arg` / `_ret` was dereferenced
   evs      : List Ev
-  obs      : List Item     -- what the completed accesses delivered while the body was running, in order
-  post     : List Item     -- what the accesses made after the body had finished delivered
+  seen     : List Item     -- what the consumer's accesses delivered, one entry per completed access, in order
+  obs      : List Item     -- the part of `seen` handed over by the body (values, then its exception / end)
+  post     : List Item     -- the part of `seen` answered without resuming the body (it had finished before)
   gotLog   : List (Nat × Nat)   -- (argument received by the body, argument of the most recent access)
   dtors    : List Nat      -- guards destroyed, in order
   deriving Repr
@@ -132,7 +133,7 @@ def init (mode : Bool) (script : List Act) : State :=
   { mode := mode, script := script, bst := .init, live := [], made := 0, resolved := [], alive := true,
     caller := .none, ifn := .null, arg := none, ret := none, exp := false, done := false, block := false,
     awaiting := false, cons := .idle, fut := .none, reader := none, it := none,
-    script0 := script, lastArg := 0, stuck := false, ub := false, evs := [], obs := [], post := [],
+    script0 := script, lastArg := 0, stuck := false, ub := false, evs := [], seen := [], obs := [], post := [],
     gotLog := [], dtors := [] }
 
 /-! ### reading the hand-over record -/
@@ -167,7 +168,7 @@ def wakeReader (s : State) (i : Item) : State :=
 def unblockFuture (s : State) : State :=
   if s.awaiting then
     if !s.done && !s.exp && s.ret.isNone then { s with ub := true }
-    else wakeReader { s with awaiting := false, fut := .ready (cur s), obs := s.obs ++ [cur s] } (cur s)
+    else wakeReader { s with awaiting := false, fut := .ready (cur s), seen := s.seen ++ [cur s], obs := s.obs ++ [cur s] } (cur s)
   else s
 
 /-- `resume_fn_sync` → `unblock_sync` -/
@@ -175,7 +176,7 @@ def unblockSync (s : State) : State := { s with block := true }
 
 /-- the consumer coroutine continues in `next_awt::await_resume` -/
 def resumeAwt (s : State) : State :=
-  { s with cons := .idle, obs := s.obs ++ [cur s], evs := s.evs ++ [.anext (cur s)] }
+  { s with cons := .idle, seen := s.seen ++ [cur s], obs := s.obs ++ [cur s], evs := s.evs ++ [.anext (cur s)] }
 
 def deliver (s : State) : State :=
   match s.caller with
@@ -243,8 +244,8 @@ def endSync (s : State) (kind : SyncKind) (b : Bool) : State × Res :=
 /-- `next_awt::operator bool` after `set_arg`: `done()` → false; `next_sync`: `h.done()` → throw; else arm `_internal`,
 `h.resume()` -/
 def syncGo (s : State) (kind : SyncKind) : State × Res :=
-  if s.done then endSync { s with post := s.post ++ [.fin] } kind false
-  else if s.bst == .final then ({ s with post := s.post ++ [.nomore] }, .nomore)
+  if s.done then endSync { s with seen := s.seen ++ [.fin], post := s.post ++ [.fin] } kind false
+  else if s.bst == .final then ({ s with seen := s.seen ++ [.nomore], post := s.post ++ [.nomore] }, .nomore)
   else (resumeBody { s with block := false, caller := .internal, ifn := .sync, cons := .inSync kind }, .started)
 
 def stepSyncBegin (s : State) (kind : SyncKind) (a : Nat) : State × Res :=
@@ -257,7 +258,7 @@ def stepSyncBegin (s : State) (kind : SyncKind) (a : Nat) : State × Res :=
 def stepSyncEnd (s : State) : State × Res :=
   match s.cons with
   | .inSync kind =>
-      if s.block then endSync { s with cons := .idle, obs := s.obs ++ [cur s] } kind (!s.done)
+      if s.block then endSync { s with cons := .idle, seen := s.seen ++ [cur s], obs := s.obs ++ [cur s] } kind (!s.done)
       else (s, .blocked)
   | _ => (s, .bad)
 
@@ -270,9 +271,9 @@ def stepValue (s : State) : State × Res :=
 /-- `co_await gen.next(a)`: `await_ready` = done(); `await_suspend` → `next_async`: **stores `_caller` first**, then throws if
 `h.done()`; otherwise symmetric transfer into the body -/
 def anextGo (s : State) : State × Res :=
-  if s.done then ({ s with post := s.post ++ [.fin], evs := s.evs ++ [.anext .fin] }, .unit)
+  if s.done then ({ s with seen := s.seen ++ [.fin], post := s.post ++ [.fin], evs := s.evs ++ [.anext .fin] }, .unit)
   else if s.bst == .final then
-    ({ s with caller := .awt, stuck := true, post := s.post ++ [.nomore], evs := s.evs ++ [.anext .nomore] }, .unit)
+    ({ s with caller := .awt, stuck := true, seen := s.seen ++ [.nomore], post := s.post ++ [.nomore], evs := s.evs ++ [.anext .nomore] }, .unit)
   else (resumeBody { s with caller := .awt, cons := .parked }, .unit)
 
 def stepAnext (s : State) (a : Nat) : State × Res :=
@@ -286,7 +287,7 @@ def futRes (s : State) : State × Res :=
 
 /-- `gen(a)` → `next_future`: `h.done()` → throw; else `_awaiting = promise`, arm `_internal`, `h.resume()` -/
 def callGo (s : State) : State × Res :=
-  if s.bst == .final then ({ s with post := s.post ++ [.nomore] }, .nomore)
+  if s.bst == .final then ({ s with seen := s.seen ++ [.nomore], post := s.post ++ [.nomore] }, .nomore)
   else futRes (resumeBody { s with awaiting := true, caller := .internal, ifn := .future, fut := .pending })
 
 def stepCall (s : State) (a : Nat) : State × Res :=
